@@ -33,6 +33,7 @@ var (
 	fBatch    = flag.Int("sim.batch", 0, "first batch index")
 	fN        = flag.Int("sim.n", 100, "number of seeds (digest mode)")
 	fReplays  = flag.String("sim.replaydir", "", "directory for replay files")
+	fDump     = flag.Bool("sim.dump", false, "digest mode: print the event logs too")
 	fDigest   = flag.Bool("sim.digest", false, "print one event-log digest per seed instead of checking (determinism self-test)")
 )
 
@@ -151,6 +152,20 @@ type engine struct {
 	sample     func(in any, res *Result) any
 	profName   func(batch int) string
 	fill       func(rf *ReplayFile, in any)
+	// shrink structurally minimises a failing input while the violation class persists
+	shrink func(t *testing.T, in any, sig string) (any, int)
+}
+
+func hasSig(res *Result, sig string) bool {
+	if res.HarnessErr != "" {
+		return false
+	}
+	for _, v := range res.Violations {
+		if v.Sig() == sig {
+			return true
+		}
+	}
+	return false
 }
 
 type WorkerOut struct {
@@ -336,6 +351,9 @@ func ledgerEngine(prop string, known []KnownFinding) *engine {
 		sample:     func(in any, res *Result) any { return sampleOf(in.(*Input), res) },
 		profName:   func(batch int) string { return profs[batch%len(profs)].Name },
 		fill:       func(rf *ReplayFile, in any) { rf.Input = in.(*Input) },
+		shrink: func(t *testing.T, in any, sig string) (any, int) {
+			return shrinkInput(in.(*Input), func(c *Input) bool { return hasSig(Run(t, c, prop, false), sig) }, 25*time.Second)
+		},
 	}
 }
 
@@ -352,6 +370,9 @@ func lockerEngine() *engine {
 		},
 		profName: func(int) string { return "locker" },
 		fill:     func(rf *ReplayFile, in any) { rf.Locker = in.(*LockerIn) },
+		shrink: func(t *testing.T, in any, sig string) (any, int) {
+			return shrinkLockerIn(in.(*LockerIn), func(c *LockerIn) bool { return hasSig(RunLocker(t, c, false), sig) }, 15*time.Second)
+		},
 	}
 }
 
@@ -375,6 +396,10 @@ func diffEngine() *engine {
 		},
 		profName: func(int) string { return "preview-diff" },
 		fill:     func(rf *ReplayFile, in any) { rf.Diff = in.(*DiffIn) },
+		shrink: func(t *testing.T, in any, sig string) (any, int) {
+			out, n := shrinkInput(in.(*DiffIn).Plus, func(c *Input) bool { return hasSig(RunDiff(t, &DiffIn{Plus: c}, false), sig) }, 25*time.Second)
+			return &DiffIn{Plus: out}, n
+		},
 	}
 }
 
@@ -405,7 +430,7 @@ func runEngine(t *testing.T, eng *engine) {
 	deadline := start.Add(*fBudget)
 	_ = flag.Set("rapid.nofailfile", "true")
 	_ = flag.Set("rapid.checks", "100")
-	_ = flag.Set("rapid.shrinktime", "20s")
+	_ = flag.Set("rapid.shrinktime", "8s")
 
 	batch := *fBatch
 	var fail struct {
@@ -490,6 +515,11 @@ func runEngine(t *testing.T, eng *engine) {
 	out.WallS = time.Since(start).Seconds()
 	out.StateHashes = len(states)
 	if fail.in != nil {
+		if eng.shrink != nil {
+			small, n := eng.shrink(t, fail.in, fail.v.Sig())
+			out.ShrinkRuns += n
+			fail.in = small
+		}
 		v := fail.v
 		out.Violation = &v
 		out.Replay = writeReplay(t, eng, fail.in, fail.v, fail.seed, false)
@@ -519,8 +549,11 @@ func engineDigest(t *testing.T, eng *engine) {
 		i := i
 		rapid.Check(tb, func(rt *rapid.T) {
 			in := eng.gen(rt, i)
-			res := eng.run(t, in, false)
+			res := eng.run(t, in, *fDump)
 			fmt.Printf("%d %s %s steps=%d err=%q\n", i, eng.profName(i), res.Digest, res.Steps, res.HarnessErr)
+			for _, l := range res.Lines {
+				fmt.Printf("  | %s\n", l)
+			}
 		})
 	}
 }
